@@ -267,6 +267,30 @@ def run_case_impl(ck, c, idx):
                                   "faces": sel, "lonlat": ll}, {"level": "isel", "supplied_edges": bool(sup)}, detail=repr(ex))
     except Exception as ex:
         ck.fail("raises", {"table": t, "level": "grid"}, {"level": "grid"}, detail=repr(ex))
+    if c.get("lonlat") and (idx % 6 == 4 or (c.get("replay") or {}).get("level") == "ugrid_reopen"):
+        # a grid whose edges were derived, exported to UGRID and opened again is a grid too — in particular when node 0 is
+        # not a corner of any face (regional cut-outs keep global node arrays): its edge tables must describe ITS faces
+        try:
+            import uxarray as ux
+            lon0, lat0 = c["lonlat"]
+            t1 = [[(x + 1 if x != FILL else FILL) for x in r] for r in t]
+            g1 = ux.Grid.from_topology(np.array([3.25] + list(lon0), dtype=float), np.array([-7.5] + list(lat0), dtype=float),
+                                       np.array(t1, dtype=np.intp), fill_value=FILL)
+            g1.edge_node_connectivity
+            if idx % 12 == 4:
+                g1.face_edge_connectivity
+            g2 = ux.Grid.from_dataset(g1.to_xarray("ugrid"))
+            e2 = [tuple(int(x) for x in r) for r in np.asarray(g2.edge_node_connectivity.values)]
+            fe2 = [[int(x) for x in r] for r in np.asarray(g2.face_edge_connectivity.values)]
+            npf2 = [int(x) for x in np.asarray(g2.n_nodes_per_face.values)]
+            t2 = [[int(x) for x in r] for r in np.asarray(g2.face_node_connectivity.values)]
+            bad = "reopened_faces_differ" if t2 != t1 else spec_check(t1, e2, fe2, npf2, int(g2.n_edge))
+            if bad:
+                ck.fail(bad, {"table": t, "level": "ugrid_reopen", "lonlat": c["lonlat"]}, {"level": "ugrid_reopen"},
+                        detail=json.dumps({"edges": e2[:12], "face_edge": fe2[:6]}))
+            ck.extra["ugrid_reopened_grids"] = ck.extra.get("ugrid_reopened_grids", 0) + 1
+        except Exception as ex:
+            ck.fail("raises", {"table": t, "level": "ugrid_reopen", "lonlat": c["lonlat"]}, {"level": "ugrid_reopen"}, detail=repr(ex))
     return res
 
 
